@@ -1,6 +1,7 @@
 # C14 — invalid input is rejected, state untouched
 X86_UNITS = ['asmjit/x86/x86assembler.cpp', 'asmjit/x86/x86instdb.cpp', 'asmjit/x86/x86instapi.cpp']
 UNITS = [Unit('x86any', harness=['h_x86_any.cpp'], repo_units=X86_UNITS)]
+UNITS.append(Unit('x86fail', harness=['h_x86_fail.cpp'], repo_units=X86_UNITS + ['asmjit/core/emitterutils.cpp', 'asmjit/core/string.cpp', 'asmjit/core/globals.cpp', 'asmjit/core/emitter.cpp']))
 NAMES = ['add', 'mov', 'lea', 'jmp', 'call', 'jz', 'loop', 'jecxz', 'push', 'xchg', 'imul', 'shl', 'movsx', 'movs', 'in_', 'enter', 'ret', 'movd', 'movq',
          'pextrw', 'crc32', 'vaddps', 'vgatherdps', 'vpextrw', 'kmovq', 'vmovd', 'vcvtps2pd', 'fld', 'bswap', 'test', 'cmpxchg', 'mul']
 B = ('instruction id fixed (%s); mode %s; operands 0..2 each symbolic over {none, reg(any RegType, any 32-bit id), mem(any signature bits, base id, index id, 64-bit offset), '
@@ -15,7 +16,9 @@ HARNESSES.append(Harness('x86any', 'h_any64_lea_d8_region', unwind=72, timeout=1
                          bounds='lea r, [label + disp] with disp within 256 of INT32_MIN/INT32_MAX (region of the fixed defect D8: must now be refused or encoded exactly)'))
 HARNESSES.append(Harness('x86any', 'h_any64_add_kf_D4', unwind=72, timeout=1200, mem_gb=6, known='D4', tiers=('quick', 'thorough'), validate_runs=100,
                          bounds='add m, imm with lock + xacquire/xrelease + segment override in 64-bit mode (region of known finding D4)'))
+for n in ('h_fail_order64_add', 'h_fail_order32_vaddps'):
+    HARNESSES.append(Harness('x86fail', n, unwind=72, timeout=1200, mem_gb=8, validate_runs=200, bounds='two register operands of arbitrary type and id, every defined option bit, optional {k} and inline comment; the real failure path (log_instruction_failed) with the instruction formatter stubbed empty'))
 EXPLANATION = 'bounded symbolic execution of the real x86 validator + encoder with arbitrary operands'
-OUTSIDE = ['throwing error handlers (C++ unwinding is not encoded)', 'instruction ids other than the listed representatives of the encoding classes', 'operands 4..6']
+OUTSIDE = ['C++ unwinding of a throwing error handler itself (the harness shows instead that the one-shot state is already cleared when the handler is entered)', 'instruction ids other than the listed representatives of the encoding classes', 'operands 4..6']
 ASSUMPTIONS = ['CodeHolder::new_fixup/new_reloc_entry/add_address_to_address_table replaced by counting stubs (real ones: C03/C04/C15)',
                'failure path without text formatting (ASMJIT_NO_LOGGING branch of log_instruction_failed); BaseEmitter::_report_error replaced by a counter']
